@@ -27,7 +27,7 @@ LEAN = {"module": "Pygom.Props.C04", "extra_modules": ["Pygom.Props.C04Seq"],
                      "Pygom.C04.path_start", "Pygom.C04.path_times_increasing", "Pygom.C04.adaptiveTau_pos",
                      "Pygom.C04.path_counts", "Pygom.C04.path_increment", "Pygom.C04.path_exit",
                      "Pygom.C04.path_exit_partial"]}
-BUDGET = {"quick": {"models": 120, "sessions": 110},
+BUDGET = {"quick": {"models": 120, "sessions": 160},
           "thorough": {"models": 1000, "sessions": 900, "max_steps": 3000, "steps": [40, 150, 600, 2500], "session_steps": [40, 150, 600]}}
 RULE = ("bounded-rate event models from the shared generator (1-5 states incl. range-style names, 1-5 events of 1-3 T/B/D "
         "transitions, integer magnitudes 1-3, linear/mass-action/saturating/exponential autonomous rates, derived parameters, "
@@ -39,7 +39,7 @@ RULE = ("bounded-rate event models from the shared generator (1-5 states incl. r
         "or tuple; plus SESSIONS on one instance: 3-5 calls (exact and tau-leap, 1-3 paths, scalar horizons and list / tuple / array "
         "grids of float or int dtype, also starting after t0 or extending past extinction) with pre_tau / epsilon left over from "
         "earlier calls, initial values re-assigned in another form or with other values (initial_values or initial_state + "
-        "initial_time), a sibling instance (same or another definition) simulated in between, the first call repeated at the end "
+        "initial_time), parameters changed and restored, a deep copy of the configured instance taking over, a sibling instance (same or another definition) simulated in between, the first call repeated at the end "
         "and the last call repeated on a freshly built instance; every returned array is kept and compared again at the end, "
         "the caller's arrays and model.initial_state are compared with the harness's own copies after every call; "
         "a case is non-trivial when some path has >= 5 accepted steps")
